@@ -498,13 +498,27 @@ def _requantized(repo, e, src, f, scale_attr):
     same_q = f.get(f"{src}.qtype == self.activation_qtype")
     per_t = f.get(f"{src}.axis is None")
     if U(e) == src:
-        return same_q is True and per_t is True
+        if same_q is True and per_t is True:
+            return True
+        for alt in (f"{src}.qtype != self.activation_qtype or {src}.axis is not None", f"{src}.axis is not None or {src}.qtype != self.activation_qtype",
+                    f"not {src}.qtype == self.activation_qtype or not {src}.axis is None", f"not {src}.axis is None or not {src}.qtype == self.activation_qtype"):
+            if f.get(alt) is False:
+                return True  # neither disjunct holds: same qtype and per-tensor
+        return False
     qa = _qa_fields(repo, e)
     if qa is None:
         return False
     both = f.get(f"{src}.qtype == self.activation_qtype and {src}.axis is None")
     if both is None:
         both = f.get(f"{src}.axis is None and {src}.qtype == self.activation_qtype")
+    if both is None:
+        # the De Morgan spelling of the same test: `qtype != ... or axis is not None` holds
+        for alt in (f"{src}.qtype != self.activation_qtype or {src}.axis is not None", f"{src}.axis is not None or {src}.qtype != self.activation_qtype",
+                    f"not {src}.qtype == self.activation_qtype or not {src}.axis is None", f"not {src}.axis is None or not {src}.qtype == self.activation_qtype"):
+            v = f.get(alt)
+            if v is not None:
+                both = not v
+                break
     return qa == (f"{src}.dequantize()", "self.activation_qtype", f"self.{scale_attr}") and (same_q is False or per_t is False or both is False)
 
 
